@@ -732,6 +732,7 @@ type SpecEnv struct {
 	freeVars map[string]*PtrInfo // captured variables of a closure under verification
 	entryParams map[string]Val // entry values of the parameters (what old(p) means; also p itself in pre/postconditions)
 	callSite bool // evaluating a callee's postcondition as an assumption
+	newThread bool // evaluating a goroutine's precondition at its go statement: the new thread holds no lock
 	freshLo  Term // call site: objects allocated by the callee are above this
 	facts   []Term
 	what    string
@@ -1383,6 +1384,9 @@ func (env *SpecEnv) evalCall(x *ast.CallExpr) Val {
 		}
 		return boolVal(Term{fmt.Sprintf("(%s ((%s Int)) %s)", q, bv.S, body.S), SBool})
 	case "held":
+		if env.newThread {
+			return boolVal(TFalse)
+		}
 		v := env.addrOrVal(x.Args[0])
 		if _, isCh := v.T.Underlying().(*types.Chan); isCh {
 			return boolVal(Select(env.cur().heapTerm("CH#held", SBool, false), v.L[0]))
